@@ -86,4 +86,12 @@ def add_validation(rep, idx):
     check_refusal(rep, "C06.4", c, "add(): data widths must be equal (ValueError)", "sub_bus.data_width != self.bus.data_width", "ValueError")
     from .common import closed_refusals
     closed_refusals(rep, "C06.4", c, "add() refuses nothing but the documented cases")
+    # C06.8 a refused add() leaves the decoder as it was: the subordinate table is keyed by the memory map, so an entry written
+    # before add_window() refuses would replace the accepted subordinate that carries the same map (D15, fixed)
+    from . import apirules
+    rep.require("C06.8", 1)
+    # C06.9 the address handed to the subordinate is not cut with `[:-n]` where n may be 0 (a window as wide as the decoder)
+    from .c19 import negative_slice_bounds
+    negative_slice_bounds(rep, idx, rule="C06.9", modules=["csr/bus.py"])
+    apirules.atomic(rep, "C06.8", idx, fi, verified=("MemoryMap.add_window",))
     glue.registry_and_window(rep, "C06.4", idx, fi, ("name", "addr"))
